@@ -19,6 +19,7 @@ EXPLANATION = (
     "custom_phase_jump_time if it is not None else 2*rise_time; rise_time derives from mod_bandwidth. NOT decided: the inequalities themselves (numeric). FLOW (added): the phase compared with the last pulse is the phase the new slot carries (drift-corrected when a correction applies), up to the time at which the drift is evaluated. Round 3 (added): RETKIND -- no function annotated `-> set[...]` returns a list/tuple/dict (add_target compares target sets with ==, a list never equals a set, so re-targeting the same atoms would insert a retarget)."
     " Round 5 (added): add_target returns for unchanged targets BEFORE waiting for the fall time; the phase-jump buffer takes the last pulse's fall time in the mode that pulse's own slot was played in."
     ' Round 6 (added after the fifth independent round of breaking changes): the phase reference of the qubits is compared at the earliest start AFTER the waits have been added (the drift time is the one the pulse will be scheduled at).'
+    ' Round 7 (added after the sixth, smaller round of breaking changes): the look-back of get_duration takes the EOM rise time under in_eom_mode (the mode the channel is in), not under supports_eom().'
 )
 ASSUMPTIONS = ["formulas are matched on the symbolic normal form of the functions (pstatic/sym.py): temporaries, private helpers, conditional forms and operand order do not matter", "state mutation between two reads of the same attribute path is not modelled by the normal form; the one ordering that matters here (wait_for_fall before reading the last slot) is checked on the event order of the CFG"]
 
